@@ -99,7 +99,7 @@ def tlc(spec, cfg, workers=None, timeout=600, env=None, simulate=None, depth=Non
     e = dict(env or {})
     if jopts:
         e["JAVA_TOOL_OPTIONS"] = " ".join(jopts)
-    cmd = ["tlc", "-workers", str(workers or NCPU), "-metadir", meta, "-config", cfgpath, "-noGenerateSpecTE"]
+    cmd = ["tlc", "-workers", str(workers or int(os.environ.get("VERIF_TLC_WORKERS", min(NCPU, 8)))), "-metadir", meta, "-config", cfgpath, "-noGenerateSpecTE"]
     if simulate:
         cmd += ["-simulate", "num=%d" % simulate]
         if depth:
@@ -130,7 +130,7 @@ def tlc(spec, cfg, workers=None, timeout=600, env=None, simulate=None, depth=Non
     m = re.search(r"Error: Invariant (\w+) is violated", out)
     if m:
         r.violated = m.group(1)
-    elif "Temporal properties were violated" in out:
+    elif re.search(r"Temporal propert(y|ies) .*violated", out):
         r.violated = "temporal"
     elif "Deadlock reached" in out:
         r.violated = "deadlock"
